@@ -76,9 +76,26 @@ def run_native(spec, cex):
             ok = fn(P, X)
         except Raised as r:
             return True, "raise:%s: %s" % (type(r.exc).__name__, str(r.exc)[:200]), "raise:" + type(r.exc).__name__
-        if ok is True:
-            return False, "holds natively", ""
-        return True, "BVX harness verdict false natively for %s" % json.dumps(X.used)[:300], "verdict-false"
+        if ok is not True:
+            return True, "BVX harness verdict false natively for %s" % json.dumps(X.used)[:300], "verdict-false"
+        # the model may depend on values of an uninterpreted function (a hypothetical round function): look for a
+        # concrete input on which the REAL primitive shows the same failure (bounded native search)
+        import random, time
+        rng = random.Random(12345)
+        t0 = time.time()
+        tries = 0
+        while tries < int(P.get("native_search", 4000)) and time.time() - t0 < 40:
+            tries += 1
+            X = NativeX(None, rng, W=int(P.get("W", 4096)))
+            try:
+                ok = fn(P, X)
+            except Raised as r:
+                return True, "raise:%s: %s for %s" % (type(r.exc).__name__, str(r.exc)[:120], json.dumps(X.used)[:200]), \
+                    "raise:" + type(r.exc).__name__
+            if ok is not True:
+                return True, "BVX harness verdict false natively for %s (found by native search after the SMT model " \
+                             "pointed at an uninterpreted-function value)" % json.dumps(X.used)[:300], "verdict-false"
+        return False, "holds natively (also on %d random inputs)" % tries, ""
     S = ReplayFactory(cex.get("args"))
     try:
         ok = fn(P, S)
